@@ -38,3 +38,26 @@ Theorem C02_arch_translation_idempotent :
   forallb (fun f => forallb (fun kv => seqb (translate_arch (code_table (B f)) [] (snd kv)) (snd kv)) (code_table (B f)))
           ["deb"; "rpm"; "apk"; "archlinux"; "ipk"] = true.
 Proof. vm_compute. reflexivity. Qed.
+
+(* ---- the architecture step of each packager, translated from its source on every run (Gen/ArchFns.v) ---- *)
+From NfpmV Require Import Gen.ArchFns.
+
+(* each packager's step still has the translated shape and indexes the table of its own format
+   (the one Gen/ArchTables.v holds under that name) *)
+Theorem C02_arch_steps_translated :
+  src_deb_arch_translated && src_rpm_arch_translated && src_apk_arch_translated && src_ipk_arch_translated && src_arch_arch_translated
+  && seqb src_deb_arch_table (B "archToDebian") && seqb src_rpm_arch_table (B "archToRPM") && seqb src_apk_arch_table (B "archToAlpine")
+  && seqb src_ipk_arch_table (B "archToIPK") && seqb src_arch_arch_table (B "archToArchLinux") = true.
+Proof. vm_compute. reflexivity. Qed.
+Print Assumptions C02_arch_steps_translated.
+
+(* for all settings and every table: the value the SOURCE leaves in info.Arch is translate_arch's - the format's own
+   architecture when it names one, the table's entry otherwise, the architecture itself when the table has none *)
+Theorem C02_arch_steps_are_the_model : forall tab i,
+  src_deb_arch tab i (gs i "arch") = translate_arch tab (gs i "deb.arch") (gs i "arch") /\
+  src_rpm_arch tab i (gs i "arch") = translate_arch tab (gs i "rpm.arch") (gs i "arch") /\
+  src_apk_arch tab i (gs i "arch") = translate_arch tab (gs i "apk.arch") (gs i "arch") /\
+  src_ipk_arch tab i (gs i "arch") = translate_arch tab (gs i "ipk.arch") (gs i "arch") /\
+  src_arch_arch tab i (gs i "arch") = translate_arch tab (gs i "archlinux.arch") (gs i "arch").
+Proof. intros tab i. repeat split; reflexivity. Qed.
+Print Assumptions C02_arch_steps_are_the_model.
